@@ -34,6 +34,6 @@ Theorem C16_new_paragraph : forall e text anc sup st cur,
   let '(_, p, iu) := new_para e text anc sup st cur in
   p_nodes p = [snd (ins_inline e text anc sup)] /\ iu = node_uid (snd (ins_inline e text anc sup)) /\
   p_style p = match st with Some l => PSHeading l | None => p_style cur end /\
-  p_ppr p = match st with Some _ => 0%N | None => p_ppr cur end.
+  p_ppr p = match st with Some _ => 0%N | None => ppr_no_sect (p_ppr cur) end.
 Proof. exact new_para_shape. Qed.
 Print Assumptions C16_new_paragraph.
